@@ -206,7 +206,9 @@ def _foreign_under_futlock(repo):
                  set(writers) <= {"common._Future.__init__", "common._Future.cancel"}, ["C04", "C02"], {"writers": writers})]
 
 
-REPLAYS = [("C07", "SW: the worker's wake-up event", "replay/c07_blocked_submit_wakeup.py"), ("C07", "followed by a wake-up of a blocked submit()", "replay/c07_blocked_submit_wakeup.py"),
+REPLAYS = [("C04", "static:lock-order # LL", "replay/c04_cancel_on_shutdown_abba.py"), ("C04", "static:lock-order # OP-2", "replay/c04_nested_submit_sync.py"),
+           ("C10", "static:lock-order", "replay/c04_cancel_on_shutdown_abba.py"), ("C11", "static:lock-order", "replay/c04_cancel_on_shutdown_abba.py"),
+           ("C07", "SW: the worker's wake-up event", "replay/c07_blocked_submit_wakeup.py"), ("C07", "followed by a wake-up of a blocked submit()", "replay/c07_blocked_submit_wakeup.py"),
            ("C07", "W2' throttle", "replay/c07_blocked_submit_wakeup.py"),
            ("C02", "every possibly-pending future handed out", "replay/c02_combinator_cancel_waiters.py"),
            ("C03", "every possibly-pending future handed out", "replay/c02_combinator_cancel_waiters.py")]
